@@ -183,6 +183,9 @@ def run(rep, prog, tier):
                   'CompressedData.__bytearray__', r, 'a compressed packet is the algorithm octet and the compression of all inner packets together',
                   where=cd.where, expected=exp, found=r)
 
+    compression_pairs(rep, prog)
+    import_arms(rep, prog, M)
+
     # ---- C20.6 layouts
     ops = ops_cls.methods['__bytearray__']
     me = ops.params[0]
@@ -237,6 +240,7 @@ def run(rep, prog, tier):
         rep.check(wc is not None and rc is not None and wc.lower().replace('_', '-') == rc.lower().replace('_', '-'), 'C20.6',
                   'LiteralData filename codec', 'writer %s reader %s' % (wc, rc),
                   'the file name must be written with the codec it is read with', where=lit.where)
+    literal_time(rep, prog, lit)
     nw = M.methods['new']
     for sens, fn in ((True, "'_CONSOLE'"), (False, "os.path.basename('')")):
         kw = nw.node.args.kwarg.arg if nw.node.args.kwarg else 'kwargs'
@@ -309,3 +313,184 @@ def value_is(outs, expected):
             return False
         terms.append(('and', [path_cond(s.facts), skeleton(render(s.ret))]))
     return bool(terms) and any(same(('or', terms), e) for e in expected)
+
+
+# ------------------------------------------------------------------------------------------------ compression round trip
+def _call_args(text, fname):
+    """Arguments of `fname(...)` when text is exactly that call (top-level comma split); None otherwise."""
+    if not (text.startswith(fname + '(') and text.endswith(')')):
+        return None
+    inner, depth, out, cur = text[len(fname) + 1:-1], 0, [], ''
+    for ch in inner:
+        if ch in '([{':
+            depth += 1
+        elif ch in ')]}':
+            depth -= 1
+            if depth < 0:
+                return None
+        if ch == ',' and depth == 0:
+            out.append(cur.strip())
+            cur = ''
+        else:
+            cur += ch
+    if cur.strip():
+        out.append(cur.strip())
+    return out
+
+
+def _int(t):
+    try:
+        return int((t or '').replace('zlib.MAX_WBITS', '15').replace('(', '').replace(')', ''))      # zlib.MAX_WBITS is 15 in every zlib
+    except (TypeError, ValueError):
+        return None
+
+
+def _wbits(args, pos):
+    for a in args[pos:pos + 1]:
+        if '=' not in a:
+            return _int(a)
+    for a in args:
+        if a.startswith('wbits='):
+            return _int(a[6:])
+    return 15                       # zlib default: zlib container, 32 KiB window
+
+
+def produced_format(text, data):
+    """(container, window bits) of the octets a compress arm returns for `data`; None when not modelled."""
+    if text == data:
+        return ('identity', 0)
+    m = re.match(r'^SLICE\((.*);2;-4\)$', text)
+    inner = m.group(1) if m else text
+    a = _call_args(inner, 'zlib.compress')
+    if a is not None and a and a[0] in (data, 'bytes(%s)' % data):
+        w = _wbits(a, 2)
+        if w is None:
+            return None
+        if m:                      # a zlib stream without its 2-octet header and 4-octet checksum is the raw DEFLATE stream
+            return ('raw', w) if 9 <= w <= 15 else None
+        return ('raw', -w) if -15 <= w <= -9 else ('zlib', w) if 9 <= w <= 15 else None
+    a = _call_args(text, 'bz2.compress')
+    if a is not None and a and a[0] in (data, 'bytes(%s)' % data):
+        return ('bz2', 0)
+    return None
+
+
+def accepted_format(text, data):
+    """(container, window bits) a decompress arm accepts for `data`; None when not modelled."""
+    if text == data:
+        return ('identity', 0)
+    a = _call_args(text, 'zlib.decompress')
+    if a is not None and a and a[0] in (data, 'bytes(%s)' % data):
+        w = _wbits(a, 1)
+        if w is None:
+            return None
+        if -15 <= w <= -8:
+            return ('raw', -w)
+        if 8 <= w <= 15:
+            return ('zlib', w)
+        if w == 0:
+            return ('zlib', 15)
+        return None
+    a = _call_args(text, 'bz2.decompress')
+    if a is not None and a and a[0] in (data, 'bytes(%s)' % data):
+        return ('bz2', 0)
+    return None
+
+
+def compression_pairs(rep, prog):
+    """C20.5: a compressed packet can be read back: for every algorithm the decompress arm accepts the container format the
+    compress arm produces, with a window at least as large (RFC 4880 9.3: ZIP = raw DEFLATE, ZLIB = RFC 1950, BZip2)."""
+    from sa.sigdata import enum_const
+    ci = prog.cls('pgpy.constants', 'CompressionAlgorithm')
+    want = {'Uncompressed': 'identity', 'ZIP': 'raw', 'ZLIB': 'zlib', 'BZ2': 'bz2'}
+    fc, fd = ci.methods.get('compress'), ci.methods.get('decompress')
+    if fc is None or fd is None:
+        raise AnalysisError('CompressionAlgorithm.compress / decompress vanished')
+    for m in ci.enum_members():
+        if m not in want:
+            rep.violation('C20.5', 'CompressionAlgorithm', 'member %s' % m, 'a compression algorithm without a known container format', where=ci.where)
+            continue
+        sides = []
+        for f, fmt in ((fc, produced_format), (fd, accepted_format)):
+            outs = [s for s in Interp(prog, Scenario(inline=noinline)).run(f, self_val=enum_const(prog, 'CompressionAlgorithm', m)) if s.raised is None]
+            texts = sorted({render(s.ret) for s in outs})
+            sides.append((texts, [fmt(t, f.params[1]) for t in texts]))
+        (ct, cf), (dt, df) = sides
+        if len(cf) != 1 or len(df) != 1 or cf[0] is None or df[0] is None:
+            rep.error('C20.5', 'CompressionAlgorithm %s: compress %s / decompress %s not modelled' % (m, ct, dt))
+            continue
+        ok = cf[0][0] == df[0][0] == want[m] and df[0][1] >= cf[0][1]
+        rep.check(ok, 'C20.5', 'CompressionAlgorithm.%s' % m, 'compress %s -> %s ; decompress %s <- %s' % (ct[0], cf[0], dt[0], df[0]),
+                  'what compress writes must be readable by decompress: same container format, and a decompression window at least as large as '
+                  'the compression window (a smaller one fails on streams with distant back-references)', where=fd.where,
+                  expected='%s container, window >= %d bits' % (want[m], cf[0][1]), found='%s, %d bits' % df[0], scenario=m)
+
+
+# ------------------------------------------------------------------------------------------------ importing packets
+def import_arms(rep, prog, M):
+    """C20.5: a packet handed to PGPMessage.__or__ ends up in the message - every signature and session key is added to the
+    existing collection (none refused, filtered or de-duplicated), the body / MDC fill their slot."""
+    orf = M.methods['__or__']
+    me, o = orf.params[0], orf.params[1]
+    cases = [('PGPSignature', {}, ('call', '%s._signatures.insort' % me, o)),
+             ('PKESessionKeyV3', {}, ('call', '%s._sessionkeys.append' % me, o)),
+             ('SKESessionKeyV4', {}, ('call', '%s._sessionkeys.append' % me, o)),
+             ('LiteralData', {'%s._message' % me: Const(None)}, ('store', '%s._message' % me, o)),
+             ('MDC', {'%s._mdc' % me: Const(None)}, ('store', '%s._mdc' % me, o))]
+    for cname, bind, (kind, what, val) in cases:
+        outs = Interp(prog, Scenario(inline=noinline, bind=bind, args={o: Sym(o, types={cname}, nonnull=True)})).run(orf)
+        live = [s for s in outs if s.raised is None]
+        refused = [s.raised for s in outs if s.raised is not None]
+        ok = bool(live) and not refused
+        detail = []
+        for s in live:
+            if kind == 'call':
+                n = sum(1 for c in s.calls if c[0] == what and c[1] == [val])
+                rebuilt = [p for p, v, l, _ in s.stores if p == what.rsplit('.', 1)[0]]
+                ok = ok and n == 1 and not rebuilt
+                detail.append((fact_texts(s.facts), n, rebuilt))
+            else:
+                st = [(p, v) for p, v, l, _ in s.stores if p == what]
+                ok = ok and st == [(what, val)]
+                detail.append((fact_texts(s.facts), st))
+            ok = ok and root_of(render(s.ret)) == me
+        rep.check(ok, 'C20.5', 'PGPMessage.__or__', '%s operand: %s refused %s' % (cname, detail, refused),
+                  'every imported packet becomes part of the message: signatures and session keys are added (none refused, filtered or '
+                  'de-duplicated), the body and the MDC fill their slot', where=orf.where, scenario=cname)
+
+
+# ------------------------------------------------------------------------------------------------ literal time field
+def literal_time(rep, prog, lit):
+    """C20.6: the four-octet time of a literal packet is seconds since 1970 UTC on both sides: the writer emits
+    timegm(utctimetuple()) (checked with the layout); the reader must build the aware UTC datetime of the same instant."""
+    p = lit.props.get('mtime')
+    if p is None:
+        raise AnalysisError('LiteralData.mtime vanished')
+    si = p.setters.get('int')
+    sb = p.setters.get('bytearray') or p.setters.get('bytes')
+    if si is None or sb is None:
+        raise AnalysisError('LiteralData.mtime int / bytes setters vanished')
+    me, v = si.params[0], si.params[1]
+    utc = r'(?:datetime\.)?(?:timezone\.utc|UTC)'
+    good = [r'^(?:datetime\.)?datetime\.fromtimestamp\(%s, (?:tz=)?%s\)$' % (re.escape(v), utc),
+            r'^(?:datetime\.)?datetime\.utcfromtimestamp\(%s\)\.replace\(tzinfo=%s\)$' % (re.escape(v), utc),
+            r'^\((?:datetime\.)?datetime\(1970, 1, 1, tzinfo=%s\) \+ (?:datetime\.)?timedelta\(seconds=%s\)\)$' % (utc, re.escape(v))]
+    local = [r'fromtimestamp\(%s\)' % re.escape(v), r'\blocaltime\(', r'\bmktime\(', r'^(?:datetime\.)?datetime\.utcfromtimestamp\(%s\)$' % re.escape(v)]
+    for s in Interp(prog, Scenario(inline=noinline)).run(si):
+        stored = [val for pth, val, l, _ in s.stores if pth in ('%s.mtime' % me, '%s._mtime' % me)]
+        if len(stored) != 1:
+            raise AnalysisError('LiteralData.mtime (int): stores %s' % stored)
+        is_good = any(re.match(g, stored[0]) for g in good)
+        is_bad = any(re.search(b, stored[0]) for b in local)
+        if not is_good and not is_bad:
+            raise AnalysisError('LiteralData.mtime (int): %s is not a conversion the time rule models' % stored[0])
+        rep.check(is_good, 'C20.6', 'LiteralData.mtime (int)', stored[0],
+                  'the time field is seconds since 1970 UTC: the reader must build the aware UTC datetime of that instant (a local wall clock '
+                  'relabelled as UTC, or a naive value, does not export to the octets it was read from)', where=si.where,
+                  expected='datetime.fromtimestamp(seconds, timezone.utc)', found=stored[0])
+    bme, bv = sb.params[0], sb.params[1]
+    for s in Interp(prog, Scenario(inline=noinline)).run(sb):
+        stored = [val for pth, val, l, _ in s.stores if pth.startswith(bme + '.')]
+        goodb = ('%s.bytes_to_int(%s)' % (bme, bv), "int.from_bytes(%s, 'big')" % bv, "int.from_bytes(%s, byteorder='big')" % bv)
+        rep.check(len(stored) == 1 and stored[0] in goodb, 'C20.6', 'LiteralData.mtime (bytes)', '%s' % stored, 'the four octets are one big-endian number',
+                  where=sb.where)
